@@ -1,4 +1,5 @@
 import FitProps.DecoderApiLemmas
+import FitProps.DecoderApiSameOpSpec
 /-! Lemmas behind C07 (history independence): the record loops do not depend on their fuel, the loop of `Decode`
 continues the loop of `PeekFileId` (`loop_split`), a header that decodes with checksums on decodes alike with checksums
 off (`decodeFileHeader_noChk`), and `discardMessages` ends exactly at the end of the data window wherever inside the
@@ -603,6 +604,11 @@ def OpSmall : Op → Prop
 theorem Small.inv_fresh {o : Opts} {l : List Nat} (h : Small l) (hf : FacOK o.fac) : Inv (St.fresh o l) :=
   ⟨h.1, DefsOK.empty, (by decide : (0 : Nat) < 4294967296), hf⟩
 
+/-! ### simulation against the operation-dependent bookkeeping `SameOp.specRun` (a proof device: see
+FitProps/DecoderApiSameOpSpec.lean; the specification of C07 is `Fit.DecApi.specRun`, related to it in
+FitProps/DecoderApiIndepLemmas.lean) -/
+namespace SameOp
+
 /-- the simulation relation between the decoder object and the specification's bookkeeping -/
 def Sim (a : Api) (p : Spec) : Prop :=
   a.whole = p.whole ∧ (Small p.whole ∧ FacOK p.o.fac) ∧ Small p.cur ∧
@@ -713,7 +719,7 @@ theorem Spec.st_o (p : Spec) : p.st.o = p.o := rfl
 theorem Spec.st_rest (p : Spec) : p.st.rest = p.cur := rfl
 theorem Spec.st_err (p : Spec) : p.st.q.err = none := rfl
 
-def Out.isDecodeKind : Out → Prop
+def _root_.Fit.DecApi.Out.isDecodeKind : Out → Prop
   | .fit _ | .err _ | .panic | .hang => True
   | _ => False
 
@@ -1327,7 +1333,7 @@ theorem sim_discard_alive (a : Api) (p : Spec) (hw : a.whole = p.whole) (hsw : S
   exact this
 
 
-theorem Api.advance_same (a : Api) : a.advance a.d = a := by
+theorem _root_.Fit.DecApi.Api.advance_same (a : Api) : a.advance a.d = a := by
   cases a; simp [Api.advance]
 
 theorem sim_start (a : Api) (p : Spec) (op : Op) (hph : p.ph = .start) (hs : Sim a p)
@@ -1562,5 +1568,7 @@ theorem sim_run : ∀ (ops : List Op) (a : Api) (p : Spec), Sim a p → (∀ op 
     rcases hx with rfl | hx
     · exact hstep.2 r hr
     · exact sim_run ops _ _ hstep.1 (fun o ho => hops o (by simp [ho])) x hx r hr
+
+end SameOp
 
 end Fit.DecApi
